@@ -562,10 +562,16 @@ fn derive_func_op_shape(def: &FuncOpDef, symbol_table: &mut BTreeMap<Rc<str>, Sh
             let func_shape = func.derive_shape(symbol_table);
             // target must be a list, a tuple or a string
             match &target_shape {
-                Shape::List(_) | Shape::Hole(_) => {}
-                // A narrowed shape, an element of a nested list for one, may
-                // well be a list. We can not tell which candidate it is.
-                Shape::Narrowed(_) => {}
+                Shape::List(_) => {}
+                // A function argument or a narrowed shape, an element of a
+                // nested list for one, can be a list, a tuple or a string,
+                // and so can the result. We can not tell which it is.
+                Shape::Hole(_) | Shape::Narrowed(_) => {
+                    return Shape::Narrowed(NarrowedShape {
+                        pos: pos.clone(),
+                        types: NarrowingShape::Any,
+                    })
+                }
                 // Mapping over a string produces a string.
                 Shape::Str(_) => return Shape::Str(pos.clone()),
                 // Mapping over a tuple produces a tuple whose fields we
@@ -611,11 +617,8 @@ fn derive_func_op_shape(def: &FuncOpDef, symbol_table: &mut BTreeMap<Rc<str>, Sh
                     pos: pos.clone(),
                     types: NarrowingShape::Any,
                 }),
-                Shape::Hole(_) => Shape::List(NarrowedShape {
-                    pos: pos.clone(),
-                    types: NarrowingShape::Any,
-                }),
-                Shape::Narrowed(_) => Shape::Narrowed(NarrowedShape {
+                // A function argument can be any of the three.
+                Shape::Hole(_) | Shape::Narrowed(_) => Shape::Narrowed(NarrowedShape {
                     pos: pos.clone(),
                     types: NarrowingShape::Any,
                 }),
